@@ -6,8 +6,9 @@ import samplib as S
 PID = "C03"
 LEVEL = "proof"
 NEED_RELEASE = True
-COQ_TARGETS = ["Props/C03.vo"]
-THEOREMS = []
+COQ_TARGETS = ["Props/C03.vo", "Props/C03_fp.vo"]
+PROPS_FILES = ["C03", "C03_fp"]
+THEOREMS = ["C03_fingerprints", ]
 TRUSTED_BASE = [
     "Coq 8.16.1 kernel; integer-exact support theorems (alias/tree indices: C08/C10) and ideal-real support theorems on the "
     "sampler models (Proofs/Support.v) — the models are tied to the code by C01's pathwise correspondence",
